@@ -61,9 +61,12 @@ pub enum Src {
     PRangeMax,
     /// the range 1..2^spare+10 (only in explicit closure-free count items)
     PRangeBig,
+    /// `par().filter(..).copied()` / `.cloned()` (only in explicit C16 / C12 items)
+    PFltCopied,
+    PFltCloned,
 }
 
-pub const ALL_SRC: [(Src, &str); 42] = [
+pub const ALL_SRC: [(Src, &str); 44] = [
     (Src::SVec, "svec"),
     (Src::SSlice, "sslice"),
     (Src::SIter, "siter"),
@@ -106,6 +109,8 @@ pub const ALL_SRC: [(Src, &str); 42] = [
     (Src::SBigIter, "sbigiter"),
     (Src::PRangeMax, "prangemax"),
     (Src::PRangeBig, "prangebig"),
+    (Src::PFltCopied, "pfltcopied"),
+    (Src::PFltCloned, "pfltcloned"),
 ];
 
 #[derive(Clone, Copy, Debug, PartialEq, Eq)]
@@ -140,8 +145,8 @@ impl Src {
     pub fn item_kind(self) -> ItemKind {
         match self {
             Src::SVec | Src::SIter | Src::SBigVec | Src::SBigIter | Src::PVec | Src::PIter | Src::PDeque | Src::PList | Src::PBTree | Src::PHeap | Src::PHash => ItemKind::Owned,
-            Src::PClonedAd | Src::PClonedIt | Src::PConVec | Src::PConVecPre | Src::PConIterPre | Src::PConIterParPre | Src::PConIter | Src::PConIterPar | Src::PBTreeMap | Src::PHashMap => ItemKind::Owned,
-            Src::SRange | Src::PRange | Src::PRangeMax | Src::PRangeBig | Src::PCopiedAd | Src::PConRange | Src::PConRangePre => ItemKind::Usize,
+            Src::PClonedAd | Src::PClonedIt | Src::PFltCloned | Src::PConVec | Src::PConVecPre | Src::PConIterPre | Src::PConIterParPre | Src::PConIter | Src::PConIterPar | Src::PBTreeMap | Src::PHashMap => ItemKind::Owned,
+            Src::SRange | Src::PRange | Src::PRangeMax | Src::PRangeBig | Src::PFltCopied | Src::PCopiedAd | Src::PConRange | Src::PConRangePre => ItemKind::Usize,
             _ => ItemKind::Ref,
         }
     }
